@@ -34,11 +34,17 @@ def prog_path(name):
     return os.path.join(core.SPEC, 'programs', name + '.json')
 
 
+# concrete refused inputs standing for the model's class "BAD": bytes the pattern never accepts, and inputs whose first
+# characters look acceptable but that contain a line feed (the pattern has to hold for the WHOLE input)
+BAD_INPUTS = ['\x00', '1\n', ' 1', 'a\nb', '0\r\n', '*']
+
+
 def to_history(mbt, tail=True):
     inputs, picks = [], []
-    for h in mbt['hist']:
+    for n, h in enumerate(mbt['hist']):
         i = h['input']
-        inputs.append(BAD_INPUT if i == 'BAD' else LONG_INPUT if i == 'LONG' else i)
+        bad = BAD_INPUTS[(n + len(mbt['hist'])) % len(BAD_INPUTS)]
+        inputs.append(bad if i == 'BAD' else LONG_INPUT if i == 'LONG' else i)
         picks.append([x - 1 for x in h['picks']])
     return dict(inputs=inputs, picks=picks, mode=mbt['mode'], tail=tail)
 
